@@ -161,6 +161,22 @@ def job(n, tier, seed):
              sample='flush empties the queue silently (no interrupt, no frame)')
     ck.ninstr += ex.ninstr; ck.nstates += 1
 
+    # ---------------- register writes: enable / clock configuration ----------------
+    # a write to the enable register only switches transmission on or off: the frame timer keeps its phase (a period that
+    # was half over when transmission was switched off is half over when it is switched on again), the queue and the flags
+    # are untouched, nothing is emitted. The clock configuration register is plain storage.
+    for entry, field in (('@bt_setenable', 'transmit_enable'), ('@bt_setclock', 'transmit_clock_config')):
+        ex, st, bp, v, q = env.mk(n)
+        r = ex.call(st, entry, [bp, w])
+        o = env.obs(ex, r[0], bp)
+        goals = [o[f] == (w if f == field else v[f]) for f in F16] + [o['qsize'] == n, o['transmit_empty'] == Z8(1 if n == 0 else 0), o['transmit_full'] == Z8(1 if n == 16 else 0),
+                                                                    z3.Not(kit.any_event(r[0], 'IRQ')), z3.Not(kit.any_event(r[0], 'AUDIO')), z3.Not(kit.exit_cond(ex))]
+        goals += [env.qat(ex, r[0], bp, i) == q[i] for i in range(n)]
+        vars_ = basevars(v, q); vars_['w'] = w
+        ck.prove('RegisterWrite[%s fill=%d]' % (field, n), [], z3.And(*goals), vars=vars_,
+                 sample='writing %s changes that register only: frame timer, period, queue and flags keep their values, no frame and no interrupt' % field if n == 3 else None)
+        ck.ninstr += ex.ninstr; ck.nstates += 1
+
     # ---------------- Tick (three cases; the case conditions partition the state space) ----------------
     def spec_frame(q_, n_):
         s0 = q_[0] if n_ >= 1 else z3.BitVecVal(0, 16)
